@@ -219,7 +219,7 @@ def main(a):
     for name, cases in spaces.items():
         for c in cases:
             c["trivial"] = c["entry"] == "calculate_drt[tr-rbf]" and nmin[c["entry"]] is None     # refused for lack of a solver: says nothing about the options
-        for size_class in ("min", "12", "40"):
+        for size_class in ("min", "min+1", "12", "13", "40"):      # both parities: stride-2 slicing (Loewner method) behaves differently on odd sizes
             chosen = list(range(len(cases)))
             if fraction[name] < 1.0:
                 k = max(8, int(round(fraction[name] * len(cases))))
@@ -238,8 +238,10 @@ def main(a):
                     chosen = [i for i in chosen if not (cases[i]["opts"].get("smoothing") == "auto" and cases[i]["opts"].get("interpolation") == "auto")]
             for i in chosen:
                 c = cases[i]
-                n = {"min": nmin[c["entry"]] or 5, "12": 12, "40": 40}[size_class]
-                jobs.append((c, f"{size_class} n={n}" if size_class == "min" else f"n={n}", n))
+                n = {"min": nmin[c["entry"]] or 5, "min+1": (nmin[c["entry"]] or 5) + 1, "12": 12, "13": 13, "40": 40}[size_class]
+                if size_class in ("min+1", "13") and (c.get("cnls_search") or c["cost"] > 1):
+                    continue            # the odd sizes repeat the cheap cases only
+                jobs.append((c, f"{size_class} n={n}" if size_class.startswith("min") else f"n={n}", n))
     jobs.sort(key=lambda j: -j[0]["cost"] * j[2] ** 1.5)
     res = Result("C18", f"option cross products ({'full' if thorough else 'covering subsample'}): KK 7 tests x {{Z,Y,auto}} x C x L x {{num_RC=3|auto}} x num_F_ext_evaluations "
                         f"{'{-20,-10,0,5,10,20}' if thorough else '{-10,0,10}'} x rapid ({len(spaces['kk'])}; cnls with max_nfev=50, and on 40 points only a seeded handful of the cnls x automatic num_RC x extension-search combinations); Z-HIT 6 smoothing x 5 interpolation x {{Z,Y}} x 5 weight/window "
